@@ -126,7 +126,7 @@ const testBin = "/verif/bin/harness.test"
 
 func buildTestBinary() error {
 	testBinOnce.Do(func() {
-		cmd := exec.Command("go", "test", "-c", "-vet=off", "-o", testBin, ".")
+		cmd := exec.Command("go", "test", "-c", "-vet=off", "-overlay", harnessDir+"/overlay.json", "-o", testBin, ".")
 		cmd.Dir = harnessDir
 		cmd.Env = append(os.Environ(), "GOFLAGS=-mod=mod", "GOPROXY=off")
 		out, err := cmd.CombinedOutput()
